@@ -124,10 +124,11 @@ def _decide(args, P, seed, scratch, t0):
                       open(os.path.join(VERIF, 'baseline', r.unit + '.json'), 'w'), indent=1, sort_keys=True)
             base = load_baseline(r.unit)
         changed = base is not None and not all(base['extracted'].get(f['name']) == f['sha256_rewritten'] for f in r.functions)
-        rlimit_only = r.undecided and all(u.startswith('rlimit/timeout') for u in r.undecided)
+        no_verdict = r.undecided and not r.degraded
         tie_broken = False
-        if rlimit_only and changed and not r.failures:
-            # the solver ran out of resources on changed code: undecided, unless the real code can be
+        if no_verdict and changed and not r.failures:
+            # the solver ran out of resources on changed code, or the changed code no longer fits the unit
+            # (type error in the generated text, construct Verus rejects): undecided, unless the real code can be
             # shown to misbehave on a concrete input
             try:
                 cex = vreplay.search_unit(REPO, scratch, r.unit, seed)
@@ -137,8 +138,8 @@ def _decide(args, P, seed, scratch, t0):
             if cex:
                 tie_broken = True
                 failures.append(dict(backend='verus', unit=r.unit, fn='?', kind='undischarged',
-                                     clause='solver resource limit on changed code; failing input found on the real code',
-                                     obligation='%s::undischarged(resource limit)::failing input found' % r.unit,
+                                     clause='no verdict from the verifier on changed code (%s); failing input found on the real code' % ('resource limit' if all(u.startswith('rlimit/timeout') for u in r.undecided) else 'the changed code does not fit the unit'),
+                                     obligation='%s::undischarged(no verdict on changed code)::failing input found' % r.unit,
                                      message=r.undecided[0][:300], rendered='\n'.join(r.undecided), in_extracted_fn=True,
                                      failing_input=cex))
         if r.degraded and (r.failures or r.undecided):
@@ -267,7 +268,12 @@ def _decide(args, P, seed, scratch, t0):
     out_lines = []
     viol = []
     known_hit = []
+    seen_ob = set()
     for fl in failures:
+        # one obligation refuted at several exits of a function is one violation
+        if fl['obligation'] in seen_ob:
+            continue
+        seen_ob.add(fl['obligation'])
         k = matches_known(prop, fl, known)
         if k:
             known_hit.append((k, fl))
